@@ -20,7 +20,7 @@ RULE = ("hostile inputs - random bytes (several distributions, 0..64 KiB), valid
         "child journals start/end, outcome, CPU time, a logical step count (sys.monitoring PY_START inside pyjelly) and the "
         "growth of the resident high-water mark. Violations: interpreter killed by a signal; a non-Exception BaseException; "
         "CPU > 2 s + 1 ms/byte or steps > 20000 + 400/byte (re-checked alone with a 10x budget before being believed); "
-        "for three input families that can be made any size (one frame of n four-byte rows, n name entries in one frame, n one-triple frames) the same shape at 4n may cost at most 8x the CPU of n (judged only when the large run takes >= 3 s, and only after a second measurement); "
+        "for four input families that can be made any size (one frame of n four-byte rows, n name entries in one frame, n one-triple frames, one integer-typed literal of n digits) the same shape at k*n (k = 4, or 16) may cost at most 2k times the CPU of n (judged only when the large run takes >= 3 s, and only after a second measurement); "
         "resident growth > 32 MiB + 1 KiB per input byte (memory proportional to the ACTUAL input, e.g. 10^5 skipped empty frames, is allowed); a MemoryError/RecursionError raised from pyjelly code. Non-trivial: inputs that "
         "got past framing (>= 1 row decoded) before failing or returning; distinct by (input hash, entry point).")
 ASSUMPTIONS = [
@@ -455,16 +455,35 @@ SCALING_FAMILIES = {
     "many-name-entries-in-one-frame": (lambda n: wire.enc_stream(
         [{"rows": [("options", _opts(max_name_table_size=4096))] + [("name", {"id": (k % 4096) + 1, "value": "n"}) for k in range(n)]}], True),
         60_000, ["generic:flat", "rdflib:flat"]),
-    "many-one-triple-frames": (lambda n: valid_tail() * n, 10_000, ["generic:flat", "rdflib:flat", "generic:grouped"]),
+    "many-one-row-frames": (lambda n: valid_tail() + wire.enc_stream([{"rows": [("triple", {})]}], True) * n, 50_000,
+                            ["generic:flat", "rdflib:flat", "generic:grouped"]),
+    # one literal of an integer datatype whose lexical form has n digits (whatever the term library does with it)
+    "huge-integer-literal": (lambda n: wire.enc_stream([{"rows": [
+        ("options", _opts(max_datatype_table_size=8)), ("name", {"id": 0, "value": "urn:x"}),
+        ("datatype", {"id": 0, "value": "http://www.w3.org/2001/XMLSchema#integer"}),
+        ("triple", {"s": ("iri", 0, 0), "p": ("iri", 0, 1), "o": ("lit", "7" * n, "dt", 1)})]}], True),
+        500_000, ["rdflib:flat", "generic:flat"], 16),
 }
 
 
+def scaling_factor(name: str) -> int:
+    """How much larger the large input of the pair is (4, or 16 for families whose suspected growth is gentler than quadratic)."""
+    fam = SCALING_FAMILIES[name]
+    return fam[3] if len(fam) > 3 else 4
+
+
+def _superlinear(name: str, a, b) -> bool:
+    """large run missing, or >= 3 s CPU and more than TWICE what linear growth from the small run would give"""
+    return b is None or (b >= 3.0 and b > 2 * scaling_factor(name) * max(a, 0.05))
+
+
 def _scaling_pair(name: str, workdir: str, tag: str, only_entry: str | None = None):
-    build, n, entries = SCALING_FAMILIES[name]
+    build, n, entries = SCALING_FAMILIES[name][:3]
+    factor = scaling_factor(name)
     if only_entry:
         entries = [only_entry]
     items = []
-    for i, size in enumerate((n, 4 * n)):
+    for i, size in enumerate((n, factor * n)):
         data = build(size)
         items.append({"i": i, "class": "hostile", "name": f"scaling:{name}", "hex": data.hex(), "entries": entries,
                       "source": "bytesio", "len": len(data)})
@@ -474,12 +493,10 @@ def _scaling_pair(name: str, workdir: str, tag: str, only_entry: str | None = No
 
 
 def scaling_probe(ctx, workdir: str):
-    """'Terminates promptly' as a SCALING statement: for input families that can be made any size, the same shape at four times
-    the size may cost at most eight times the CPU (linear would be four) - judged only when the large run is slow enough to
-    measure (>= 3 s CPU), and only after the pair was measured a second time on its own."""
-    for name in SCALING_FAMILIES:
-        if ctx.out_of_time():
-            return
+    """'Terminates promptly' as a SCALING statement: for input families that can be made any size, the same shape at k times
+    the size (k = 4, or 16) may cost at most 2k times the CPU (linear would be k) - judged only when the large run is slow enough
+    to measure (>= 3 s CPU), and only after the pair was measured a second time on its own."""
+    for name in SCALING_FAMILIES:             # (bounded work, about 20 s on the unchanged tree: not cut short by the budget)
         items, cpu, st = _scaling_pair(name, workdir, f"scale-{ctx.shard}")
         ctx.observe("scaling-pairs-measured")
         for entry in SCALING_FAMILIES[name][2]:
@@ -487,17 +504,17 @@ def scaling_probe(ctx, workdir: str):
             if a is None:
                 ctx.inconc(f"scaling probe {name}/{entry}: the SMALL input did not finish (rc={st[0]}, timeout={st[1]})")
                 continue
-            suspect = b is None or (b >= 3.0 and b > 8 * max(a, 0.05))
+            suspect = _superlinear(name, a, b)
             ctx.observe(f"scaling:{name}:{entry}:{'suspect' if suspect else 'linear-or-too-fast-to-judge'}")
             if suspect:
                 _it2, cpu2, st2 = _scaling_pair(name, workdir, f"scale-confirm-{ctx.shard}", only_entry=entry)
                 a2, b2 = cpu2.get((0, entry)), cpu2.get((1, entry))
-                if a2 is not None and (b2 is None or (b2 >= 3.0 and b2 > 8 * max(a2, 0.05))):
+                if a2 is not None and _superlinear(name, a2, b2):
                     ctx.violation({"clause": "superlinear-time", "entry": entry, "input_class": "hostile", "name": f"scaling:{name}",
                                    "len": items[1]["len"], "source": "bytesio", "hex": "", "family": name,
                                    "summary": f"{name}: {entry} needs {a2:.2f} s CPU for {items[0]['len']} bytes and "
                                               + (f"{b2:.2f} s" if b2 is not None else "more than 400 s (not finished)")
-                                              + f" for {items[1]['len']} bytes of the same shape: four times the input, "
+                                              + f" for {items[1]['len']} bytes of the same shape: {scaling_factor(name)} times the input, "
                                               + (f"{b2 / max(a2, 0.05):.1f}" if b2 is not None else "> 100")
                                               + " times the time (confirmed by a second measurement)"})
             ctx.case(("scaling", name, entry), True, sample={"kind": "scaling pair", "family": name, "entry": entry,
@@ -604,7 +621,7 @@ def replay(w: dict):
         try:
             items, cpu, _st = _scaling_pair(w["family"], workdir, "replay", only_entry=w["entry"])
             a, b = cpu.get((0, w["entry"])), cpu.get((1, w["entry"]))
-            if a is not None and (b is None or (b >= 3.0 and b > 8 * max(a, 0.05))):
+            if a is not None and _superlinear(w["family"], a, b):
                 return {"clause": "superlinear-time", "summary": f"{a} s vs {b} s"}
             return None
         finally:
